@@ -193,11 +193,12 @@ func jobsFor(prop, tier string) []*Job {
 					Bounds: fmt.Sprintf("%d administration calls (upsert with weight 0..2 / upsert without option / remove) on a universe of 4 URLs with 3 identities, checked after every call; then one rotation via NextServer or ServeHTTP with a URL-rewriting downstream handler; kind 0 = RoundRobin, 1 = through Rebalancer", k)})
 			}
 		}
+		k3 := 3 // the two fault modes keep the quick history length in both tiers
 		for kind := 0; kind < 2; kind++ {
-			add(&Job{Name: fmt.Sprintf("O3-failed-remove-mid-rotation/kind=%d,pre=2,k=%d", kind, k-2), Pkg: "roundrobin", Harness: "VerifC02History", Params: p("kind", kind, "k", k-2, "op0", 2, "pre", 2, "mode", 1),
-				Bounds: fmt.Sprintf("two members with symbolic weights 0..2, a remove (op0) and %d further administration calls, then one rotation with a failing remove of an unknown server after the 1st or 2nd selection (symbolic): the rotation still reaches every positive-weight member", k-3)})
+			add(&Job{Name: fmt.Sprintf("O3-failed-remove-mid-rotation/kind=%d,pre=2,k=%d", kind, k3-2), Pkg: "roundrobin", Harness: "VerifC02History", Params: p("kind", kind, "k", k3-2, "op0", 2, "pre", 2, "mode", 1),
+				Bounds: fmt.Sprintf("two members with symbolic weights 0..2, a remove (op0) and %d further administration calls, then one rotation with a failing remove of an unknown server after the 1st or 2nd selection (symbolic): the rotation still reaches every positive-weight member", k3-3)})
 		}
-		for _, c := range [][2]int{{2, k - 2}, {0, k}} {
+		for _, c := range [][2]int{{2, k - 2}, {0, k3}} {
 			add(&Job{Name: fmt.Sprintf("O4-meter-failure/pre=%d,k=%d", c[0], c[1]), Pkg: "roundrobin", Harness: "VerifC02History", Params: p("kind", 1, "k", c[1], "op0", 0, "pre", c[0], "mode", 2),
 				Bounds: fmt.Sprintf("through the rebalancer with a meter factory that fails at one symbolic step of %d administration calls (first call an upsert): a failed add reports an error and leaves the pool as it was", c[1])})
 		}
